@@ -345,8 +345,11 @@ def write_replay(pid, kind, msg, case):
     return path
 
 
-def write_evidence(mod, tier, seed, cov, wall, violations, extra_assumptions=()):
-    os.makedirs(os.path.join(VERIF, "evidence"), exist_ok=True)
+def write_evidence(mod, tier, seed, cov, wall, violations, extra_assumptions=(), scratch=False):
+    # runs against a scratch copy of the repository (VERIF_REPO) or with an overridden budget are experiments: their record goes
+    # to .work/ so that evidence/ only ever holds records of the registered commands run against /repo itself
+    sub = os.path.join(".work", "evidence") if scratch else "evidence"
+    os.makedirs(os.path.join(VERIF, sub), exist_ok=True)
     ev = {
         "property_id": mod.PID,
         "tier": tier if tier in ("quick", "thorough") else "quick",
@@ -357,7 +360,7 @@ def write_evidence(mod, tier, seed, cov, wall, violations, extra_assumptions=())
         "wall_s": round(wall, 2),
         "violations": violations,
     }
-    path = os.path.join(VERIF, "evidence", f"{mod.PID}.json")
+    path = os.path.join(VERIF, sub, f"{mod.PID}.json")
     tmp = path + ".tmp"
     with open(tmp, "w") as f:
         json.dump(ev, f, indent=1, sort_keys=True, default=repr)
@@ -530,7 +533,8 @@ def main(argv=None):
     }
     if getattr(mod, "EXHAUSTIVE", None):
         cov["exhaustive"] = bool(mod.EXHAUSTIVE if not callable(mod.EXHAUSTIVE) else mod.EXHAUSTIVE(args.tier)) and not cov["budget_hit"]
-    write_evidence(mod, args.tier, seed, cov, time.time() - t0, len(violations))
+    scratch = os.path.realpath(env.REPO) != "/repo" or args.budget is not None
+    write_evidence(mod, args.tier, seed, cov, time.time() - t0, len(violations), scratch=scratch)
 
     for line in known_lines:
         print(line)
